@@ -163,6 +163,26 @@ def case(item):
                     k = dict(k)
                     k["msg"] = tok
                     rec["fails"].append((k, text, label))
+        # consistent resizing rewrites of the hello messages (extension
+        # dropped / emptied, lists shortened, selections substituted)
+        if tok in ("CH", "SH", "HRR"):
+            from .c04 import hello_rewrites
+            for (label, newb) in hello_rewrites(data):
+                r = run_one(sc, seed, victim, {i: ("replace", newb)},
+                            meter=True)
+                if r is None:
+                    continue
+                pair2, pup2, out2, m2 = r
+                rec["n"] += 1
+                rx = len(pair2.world.s2c.log if victim == "C"
+                         else pair2.world.c2s.log)
+                sig, fails = judge(pair2, out2, victim, m2, base_calls, rx)
+                rec["sigs"].add((tok, "rewrite", sig))
+                for (k, text) in fails:
+                    if len(rec["fails"]) < 60:
+                        k = dict(k)
+                        k["msg"] = tok
+                        rec["fails"].append((k, text, "rewrite:" + label))
     rec["sigs"] = sorted(rec["sigs"], key=repr)
     return rec
 
